@@ -46,7 +46,9 @@ def a_slide(run, create=True):
             raise Rejected()
         run.prs.slides.add_slide(run.prs.slide_layouts[0])
         s = cached_slides(run)
-    return run.rnd.choice(s)
+    sl = run.rnd.choice(s)
+    sat_select(run, sl._element, shallow=True)  # profile 'sat': slide-level siblings (p:transition, p:timing, p:extLst ...) before the call
+    return sl
 
 
 def a_shape(run, pred, tries=4):
@@ -111,7 +113,7 @@ def a_chart(run):
     return sh.chart
 
 
-def sat_select(run, el):
+def sat_select(run, el, shallow=False):
     """Profile 'sat' only: the element an op has just chosen to work on gets schema-permitted siblings (op_saturate's
     treatment, aimed at the chosen subtree) right before the API call, so the call inserts next to children python-pptx
     itself never writes.  Done with lxml, baselines re-taken: never attributed to python-pptx."""
@@ -119,7 +121,7 @@ def sat_select(run, el):
         return
     from pptx.oxml.xmlchemy import BaseOxmlElement
 
-    sub = [e for e in el.iter() if isinstance(e, BaseOxmlElement) and e.tag not in SAT_SKIP_PARENTS]
+    sub = [e for e in ([el] + list(el) if shallow else el.iter()) if isinstance(e, BaseOxmlElement) and e.tag not in SAT_SKIP_PARENTS]
     _saturate_elements(run, run.rnd.sample(sub, min(len(sub), 80)))
     run.acc.count("saturate:aimed_at_the_target_of_the_next_call")
 
@@ -1134,7 +1136,7 @@ PROFILES["mixed"].update({"save_stream": 2, "save_path": 1, "reopen": 1, "traver
 # C10 online: XML mutators working next to schema-permitted siblings python-pptx never writes
 PROFILES["sat"] = {
     "add_slide": 2, "add_shape": 3, "add_textbox": 3, "add_picture": 3, "add_connector": 1, "connect": 1, "add_group": 1, "add_freeform": 1, "add_chart": 4,
-    "add_table": 3, "ph_insert": 2, "text_assign": 4, "text_struct": 5, "font": 8, "paragraph_fmt": 10, "textframe_fmt": 6, "run_hyperlink": 3,
+    "add_table": 3, "add_movie": 3, "add_ole": 2, "ph_insert": 2, "text_assign": 4, "text_struct": 5, "font": 8, "paragraph_fmt": 10, "textframe_fmt": 6, "run_hyperlink": 3,
     "fill": 8, "line": 6, "shadow": 3, "click_action": 3, "table": 6, "picture": 6, "autoshape": 6, "chart_fmt": 22, "chart_replace": 2, "notes": 2,
     "saturate": 8,
 }
@@ -1155,7 +1157,7 @@ def profile_table(name):
 
 
 # ---------------------------------------------------------------------------- PowerPoint-only siblings, mid-history
-SAT_SKIP_PARENTS = {"{%s}%s" % (P, n) for n in ("spTree", "grpSp", "sld", "sldLayout", "sldMaster", "notes", "cSld", "presentation")}
+SAT_SKIP_PARENTS = {"{%s}%s" % (P, n) for n in ("spTree", "grpSp", "sldMaster", "presentation")}
 
 
 def _root(el):
